@@ -2,16 +2,15 @@ CONSTANTS
   ID = {1, 2}
   Mgr = {1}
   NoReq = 0
-  AnnVals = {"k=a", "empty"}
+  AnnVals = {"k=a"}
   MatIn = {"PRIVATE", "PUBLIC", "SYMMETRIC"}
-  MaxEntries = 2
+  MaxEntries = 1
   MaxHandles = 2
   OptMode = "one"
-  MaxAnnList = 2
+  MaxAnnList = 1
 INIT Init
 NEXT MCNextNoDev
 CONSTRAINT Bound
-ACTION_CONSTRAINT DerivedLeaf
 VIEW View
 INVARIANTS TypeOK C11_HandleWellFormed C11_ManagerInv
 PROPERTIES C11_ErrLeavesUnchanged PrimaryNeverLost C11_PrimaryProtected C11_HandlesImmutable C11_ManagersIsolated C11_IdsStayUnavailable HandleMetaImmutable AccessorsPure AddOptsPost AddKeyIsAddOptsEmpty AgreesWithC11 DerivedHandlesAgree NoSecretsGuard
